@@ -77,7 +77,7 @@ package proposal
 //@   loop 1 invariant forall p string :: (p in config.Values) && !(p in updatedChangeValues) ==> readValuesDom[p] && config.Values[p] == readValuesVal[p]
 
 //@ func (*Reconciler).reconcileApply
-//@   props C02, C04, C07, C10, C11
+//@   props C02, C04, C06, C07, C10, C11
 //@   requires r != nil && proposal != nil && proposal.tracked && proposalSnapshotted(proposal) && proposalWellFormed(proposal) && proposalInv(proposal) && proposalKeyed(proposal)
 //@   requires proposal.Status.Phases.Apply != nil
 //@   requires proposal.Status.PrevIndex < proposal.TransactionIndex
